@@ -9,10 +9,12 @@
        Hnum (threshold is a number)     from size = PInt T                          (overlap),
    PLUS what `valid_join_case` / `valid_ed_case` ask and the end-to-end theorems do not give:
        tables_extra (1 <= cpus, both tables < 2^31 rows, unique keys) and set_cells (no repeated token, fewer
-       than 2^20 tokens) for the two set joins; a positive threshold (overlap coefficient: the validator
-       lets a NaN through, see `ovc_validator_accepts_nan`); an INTEGER overlap size (overlap);
+       than 2^20 tokens) for the two set joins; an INTEGER overlap size (overlap);
        unique keys and < 2^31 right rows for the edit-distance join.
-   Derived from the validators: lower_op / ed_op of the operator, 1 <= T of the overlap size.          *)
+   Derived from the validators: lower_op / ed_op of the operator, 1 <= T of the overlap size, and -- since
+   validate_threshold states its range tests positively and so rejects NaN (`ovc_validator_rejects_nan`) --
+   the positive threshold of the overlap coefficient (`ovc_pos_of_valid`; it used to be an extra hypothesis,
+   the old statement is kept as `C01_C02_code_overlap_coefficient_pos`).                                *)
 From Coq Require Import ZArith Bool List String Lia Permutation SpecFloat.
 From SSJ Require Import F64 PyNum FilterUtilsGen HelperGen TokenOrderingGen ValidationGen IndexGen JoinGen
      TokenOrdering Measures Filters Lev Qgram Joins Api JoinSpec MetaSpec Projection ProjSpec IndexPyFacts ProjectionFacts
@@ -20,7 +22,7 @@ From SSJ Require Import F64 PyNum FilterUtilsGen HelperGen TokenOrderingGen Vali
      WrapperRefineFrame WrapperRefineMissing WrapperRefineCore WrapperRefineChunks WrapperRefine WrapperRefineClosed
      WrapperRefineApi WrapperRefineEnd WrapperBody WrapperApiLink WrapperEnd
      WrapperRefineOvc WrapperRefineEd FilterWrapperRefineOverlap
-     OrderingFacts OverlapFacts OverlapMeasure ValidationFacts EditJoin
+     OrderingFacts OverlapFacts OverlapMeasure ValidationFacts ValidationFloat EditJoin
      ApiLift ApiFilterBase ApiFilterEdit ApiFilterClosed ApiJoinSpec PartitionInst CodeLevelBase CodeLevelJoins.
 Import ListNotations.
 Open Scope Z_scope.
@@ -35,11 +37,40 @@ Qed.
 Lemma overlap_size_pos T : is_exc (validate_threshold (PInt T) (PStr "OVERLAP")) = false -> 1 <= T.
 Proof. rewrite vt_overlap. destruct (Z.leb_spec T 0); [discriminate | lia]. Qed.
 
-(* why `pos_threshold` is NOT derivable from the threshold validator: NaN passes it *)
-Example ovc_validator_accepts_nan :
-  is_exc (validate_threshold (PFloat S754_nan) (PStr "OVERLAP_COEFFICIENT")) = false /\
+(* the threshold validator rejects NaN (before the source change it accepted it, and `pos_threshold`
+   had to be assumed separately) *)
+Example ovc_validator_rejects_nan :
+  is_exc (validate_threshold (PFloat S754_nan) (PStr "OVERLAP_COEFFICIENT")) = true /\
   num_of (PFloat S754_nan) <> None /\ ~ pos_threshold (PFloat S754_nan).
 Proof. split; [reflexivity|]. split; [discriminate|]. unfold pos_threshold. vm_compute. discriminate. Qed.
+
+(* `threshold > 0` is True (Python's exact comparison with the int 0): the threshold is a number, and
+   positive in the sense of OverlapMeasure.pos_threshold -- for ANY Python value t *)
+Lemma pos_threshold_of_gt0 t : py_gt t (PInt 0) = PBool true -> pos_threshold t /\ num_of t <> None.
+Proof.
+  intros G. destruct t as [k|f|s|b| |l|l|l|e];
+    try (unfold py_gt, py_ord, strict2, ord_cmp, num_of in G; discriminate G).
+  - split; [|discriminate]. apply pos_threshold_int.
+    assert (Hk : py_truth (py_gt (PInt k) (PInt 0)) = true) by (rewrite G; reflexivity).
+    rewrite PyFacts.py_gt_int in Hk. apply Z.ltb_lt. exact Hk.
+  - split; [|discriminate]. apply pos_threshold_float.
+    rewrite py_gt_float_0 in G. injection G as G. exact G.
+  - destruct b; [|discriminate G]. split; [reflexivity | discriminate].
+Qed.
+
+(* a threshold accepted by the validator of a (0, 1]-measure is positive: float, int or anything else *)
+Lemma unit_pos_of_valid t m :
+  String.eqb m "EDIT_DISTANCE" = false -> String.eqb m "OVERLAP" = false ->
+  is_exc (validate_threshold t (PStr m)) = false -> pos_threshold t /\ num_of t <> None.
+Proof. intros H1 H2 H. exact (pos_threshold_of_gt0 t (vt_unit_accepts_gt0 t m H1 H2 H)). Qed.
+
+Lemma ovc_pos_of_valid t :
+  is_exc (validate_threshold t (PStr "OVERLAP_COEFFICIENT")) = false -> pos_threshold t.
+Proof. intros H. exact (proj1 (unit_pos_of_valid t "OVERLAP_COEFFICIENT" eq_refl eq_refl H)). Qed.
+(* (the hypothesis `num_of (ft p) <> None` of the end-to-end theorem follows in the same way) *)
+Lemma ovc_num_of_valid t :
+  is_exc (validate_threshold t (PStr "OVERLAP_COEFFICIENT")) = false -> num_of t <> None.
+Proof. intros H. exact (proj2 (unit_pos_of_valid t "OVERLAP_COEFFICIENT" eq_refl eq_refl H)). Qed.
 
 Lemma set_cells_below c toks lsrc rsrc bound : size_bound <= bound -> set_cells c toks lsrc rsrc ->
   (forall row, In row (lpresent c lsrc) -> len (toks (lcell c row)) < bound) /\
@@ -72,15 +103,15 @@ Section CodeOvc.
   Hypothesis Hop : comp_op_map op = Some cf.
   Hypothesis Hnum : num_of (ft p) <> None.
   Hypothesis Hid : ~ In "_id"%string (mv_header c).
-  (* extra, for valid_join_case *)
-  Hypothesis Hpos : pos_threshold (ft p).
+  (* extra, for valid_join_case (pos_threshold (ft p) is no longer among them: ovc_pos_of_valid) *)
   Hypothesis Htab : tables_extra c kz cpus lsrc rsrc.
   Hypothesis Hset : set_cells c toks lsrc rsrc.
 
   Definition ovc_code_jcase : jcase := jcase_of c p op ae am njobs cpus lsrc rsrc toks kz.
 
   Lemma ovc_valid : valid_join_case ovc_code_jcase.
-  Proof using Hfm Hvop Hpos Htab Hset.
+  Proof using Hfm Hvt Hvop Htab Hset.
+    pose proof (ovc_pos_of_valid (ft p) Hvt) as Hpos.
     split; [|split].
     - apply (tables_ok_of c lsrc rsrc toks (fun _ => []) kz ovc_code_jcase eq_refl eq_refl); assumption.
     - exact (lower_op_of_valid op "OVERLAP_COEFFICIENT" eq_refl Hvop).
@@ -109,6 +140,37 @@ Section CodeOvc.
       + exact I.
   Qed.
 End CodeOvc.
+
+(* the statement as it was before validate_threshold rejected NaN (extra hypothesis pos_threshold (ft p)):
+   now a corollary *)
+Corollary C01_C02_code_overlap_coefficient_pos :
+  forall (c : pcase) (p : fparams) (op : string) (ae am : bool) (njobs cpus : Z)
+         (lsrc rsrc : list (list pyval)) (showp : pyval) (tokenize : pyval -> pyval)
+         (toks : pyval -> list Z) (cf : pyval -> pyval -> pyval) (kz : pyval -> Z),
+  well_formed c ->
+  (forall row, In row lsrc -> List.length row = List.length (p_lcols c) /\ ProjSpec.row_ok row) ->
+  (forall row, In row rsrc -> List.length row = List.length (p_rcols c) /\ ProjSpec.row_ok row) ->
+  (forall row, In row (lpresent c lsrc) -> tokenize (lcell c row) = pints (toks (lcell c row))) ->
+  (forall row, In row (rpresent c rsrc) -> tokenize (rcell c row) = pints (toks (rcell c row))) ->
+  fm p = "OVERLAP_COEFFICIENT"%string ->
+  is_exc (validate_threshold (ft p) (PStr "OVERLAP_COEFFICIENT")) = false ->
+  is_exc (validate_comp_op_for_sim_measure (PStr op) (PStr "OVERLAP_COEFFICIENT")) = false ->
+  is_exc (validate_output_attrs (py_opt_strs (p_lout c)) (py_strs (p_lcols c))
+                                (py_opt_strs (p_rout c)) (py_strs (p_rcols c))) = false ->
+  comp_op_map op = Some cf ->
+  num_of (ft p) <> None ->
+  ~ In "_id"%string (mv_header c) ->
+  pos_threshold (ft p) ->
+  tables_extra c kz cpus lsrc rsrc ->
+  set_cells c toks lsrc rsrc ->
+  code_join_conclusion c am lsrc rsrc kz (ovc_code_jcase c p op ae am njobs cpus lsrc rsrc toks kz)
+    (ovc_call c p op ae am njobs cpus lsrc rsrc showp tokenize).
+Proof.
+  intros c p op ae am njobs cpus lsrc rsrc showp tokenize toks cf kz
+         Hwf Hl Hr HtL HtR Hfm Hvt Hvop Hvout Hop Hnum Hid _ Htab Hset.
+  exact (C01_C02_code_overlap_coefficient c p op ae am njobs cpus lsrc rsrc showp tokenize toks cf kz
+           Hwf Hl Hr HtL HtR Hfm Hvt Hvop Hvout Hop Hnum Hid Htab Hset).
+Qed.
 
 (* ================================================================== overlap join *)
 Section CodeOverlap.
@@ -284,3 +346,6 @@ Print Assumptions C01_C02_code_overlap_coefficient.
 Print Assumptions C01_C02_code_overlap_join.
 Print Assumptions C03_code_edit_distance_sound.
 Print Assumptions C03_code_edit_distance_exact.
+Print Assumptions unit_pos_of_valid.
+Print Assumptions ovc_validator_rejects_nan.
+Print Assumptions C01_C02_code_overlap_coefficient_pos.
